@@ -29,11 +29,27 @@ def decl_specs(tier):
     for c in ('m0', 'mab', 'rx', 'sm', 'om'):
         for sbl in (0, 2, 3):
             specs.append({'names': [c, 'i1'], 'wrapper': 'a', 'opts': {'search_buffer_length': sbl}})
+    for c in ('i1', 'i3', 'dn', 'm0', 'b35', 'sn', 'su', 'sr', 'o1', 'r1', 'rs', 'p_at3', 'p_al2', 'p_al4i', 'p_em4', 'sdn', 'rst'):
+        specs.append({'names': [c], 'wrapper': 'd'})
+    for c in ('p_at3', 'p_al2', 'p_al4i', 'p_shm1', 'p_atn', 'p_em2i', 'p_seq', 'p_ref'):
+        for al in (2, 4):
+            specs.append({'names': ['i1', c], 'wrapper': 'a', 'opts': {'align': al}})
+            specs.append({'names': [c, 'dn'], 'wrapper': 'b', 'opts': {'align': al}})
     for c in ('r1', 'sr', 'rs', 'rbag'):
         specs.append({'names': [c, 'i2'], 'wrapper': 'b', 'shared': {}})
         specs.append({'names': ['i2', c], 'wrapper': 'c', 'shared': {'endianness': 'little'}})
     for c in ('i1', 'dn', 'sn', 'r1', 'b35', 'p_at3', 'rs', 'o1'):
         specs.append({'names': [c, 'i3', c], 'wrapper': 'a', 'opts': {'generate_for_pack': False, 'generate_for_unpack': False}})
+    # every width in every byte-order spelling, per field and as the class-wide default, alone / in a list / referenced
+    for n in (1, 2, 3, 4, 5, 8, 9):
+        for sg in 'us':
+            for e in ('def', 'big', 'lit', 'net', 'loc'):
+                specs.append({'names': ['x%d%s%s' % (n, e, sg), 'i1'], 'wrapper': 'a' if sg == 'u' else 'c'})
+            for ce in ('little', 'network', 'local'):
+                specs.append({'names': ['i1', 'x%ddef%s' % (n, sg)], 'wrapper': 'a' if sg == 's' else 'b', 'opts': {'endianness': ce}})
+    for c in ('sns', 'ss', 'os', 'p_seq', 'sw'):
+        for ce in ('little', 'local'):
+            specs.append({'names': [c, 'x3defu'], 'wrapper': 'a', 'opts': {'endianness': ce}})
     specs.extend(alphabet.families())
     return specs
 
